@@ -435,6 +435,7 @@ pub fn match_record(args: &Args) -> i32 {
     let mut cases = std::io::BufWriter::new(std::fs::File::create(format!("{}.cases", args.req("out"))).unwrap());
     let mut run = 0;
     let mut supported = 0;
+    let maxplain = maxplain.max(1); // (window-edge streams are recorded by stream-record, they are too long for Trace_Match)
     let perturbed = args.num("perturb", 2) as usize;
     // every stream under the estimated parameters, then under vectors next to them: the
     // predictions go wrong in ways the estimated parameters hardly ever allow
